@@ -79,9 +79,9 @@ def run_harm(patch, props):
     try:
         repo = os.path.join(d, "repo")
         subprocess.run(["rsync", "-a", "--exclude", ".git", REPO + "/", repo + "/"], check=True)
-        r = subprocess.run(["patch", "-p1", "-s", "-d", repo, "-i", patch], capture_output=True, text=True)
+        r = subprocess.run(["patch", "-p1", "-s", "-d", repo, "-i", os.path.abspath(patch)], capture_output=True, text=True)
         if r.returncode != 0:
-            return patch, {"error": "patch does not apply"}
+            return patch, {"harness": "error: patch does not apply"}
         for prop in props:
             out = os.path.join(d, "out-" + prop)
             p = subprocess.run([os.path.join(VD, "bin", "govc"), "check", "-repo", repo, "-out", out, prop],
@@ -138,7 +138,8 @@ def harm(jobs, root):
             print(("FALSE-ALARM " if bad else "quiet       ") + patch + ("  undecided: " + " ".join(und) if und else ""), flush=True)
             for k, v in bad.items():
                 print("    " + k + " " + v, flush=True)
-    json.dump(results, open(os.path.join(VD, "selftest", "harm_results.json"), "w"), indent=1, sort_keys=True)
+    out = "harm_results.json" if os.path.basename(os.path.normpath(root)) == "harmless-agents" else "harm_results_" + os.path.basename(os.path.normpath(root)) + ".json"
+    json.dump(results, open(os.path.join(VD, "selftest", out), "w"), indent=1, sort_keys=True)
 
 def main():
     if "--harmdir" in sys.argv:
